@@ -364,6 +364,34 @@ example : (buildUpgrade (recordOf exampleRecord)).filter (fun it => it.flag == s
 example : (match parseArgs (buildInstall (fun p => if p = ["options", "peers_args", "first"] then .bool true else exampleRecord p)) with
     | .ok _ => "ok" | .error (.conflict a b) => a ++ "/" ++ b | .error _ => "other") = "addrs/first" := by decide
 
+
+/-! ### After parsing: `impl Into<EvmNetwork> for EvmNetworkCommand` (what antnode runs with) -/
+
+/-- For each field of `CustomNetwork`, the source antnode ends up building it from: the field of
+`EvmNetworkCommand::EvmCustom` that flows into it (`evmCustomInto`: through `Network::new_custom` and
+`CustomNetwork::new`), the long option clap fills that command field from, and the value the argument
+table writes under that option. -/
+def convertedCustom (T : List Entry) : List (String × Option (Src × Render)) :=
+  evmCustomInto.map fun nc =>
+    (nc.1, match T.find? (fun e => match e.flag with
+        | some l => (match findLong customDecls l with | some d => d.field == nc.2 | none => false)
+        | none => false) with
+      | some e => e.value
+      | none => none)
+
+/-- The intended custom network: every contract setting of the option record in its own field. -/
+def intentConverted : List (String × Option (Src × Render)) := [
+  ("rpc_url_http", some (.var ["options", "evm_network", "rpc_url_http"], .display)),
+  ("payment_token_address", some (.var ["options", "evm_network", "payment_token_address"], .display)),
+  ("data_payments_address", some (.var ["options", "evm_network", "data_payments_address"], .display))]
+
+/-- **parse_build_is_intended (after conversion).** The custom EVM network antnode builds from the parsed
+subcommand has the RPC URL, the payment-token address and the data-payments address of the option record
+each in its own field — at installation and after an upgrade. (A conversion that hands the two addresses
+to `new_custom` in the wrong order makes this false although every argument is still accepted.) -/
+theorem custom_network_converted_as_intended :
+    convertedCustom installPost = intentConverted ∧ convertedCustom upgradePost = intentConverted := by decide
+
 #print axioms SafeNet.Props.C20.upgrade_args_equiv
 #print axioms SafeNet.Props.C20.upgrade_settings_equiv
 #print axioms SafeNet.Props.C20.upgrade_environment
@@ -376,6 +404,7 @@ example : (match parseArgs (buildInstall (fun p => if p = ["options", "peers_arg
 #print axioms SafeNet.Props.C20.install_table_is_intent
 #print axioms SafeNet.Props.C20.parse_build_is_intended
 #print axioms SafeNet.Props.C20.parse_upgrade_accepted
+#print axioms SafeNet.Props.C20.custom_network_converted_as_intended
 #print axioms SafeNet.Props.C20.word_selects_same_network
 #print axioms SafeNet.Props.C20.log_format_values_accepted
 
